@@ -318,7 +318,78 @@ def t_nary(fn, params, operands):
     return out, Cop(n, list(enumerate(maps)), ("mul",), None), False
 
 
+def _tup(v, n):
+    return tuple(int(v) for _ in range(n)) if isinstance(v, (int, np.integer)) else tuple(int(e) for e in v)
+
+
+def t_conv(fn, params, operands):
+    """conv_nd(x, w, stride, padding, dilation): out[n,f,o] = sum_{c,k} xpad[n,c,o*s+k*d] * w[f,c,k]  -- bilinear: a product of gathers, segment-summed
+    per output element; terms that fall into the zero padding contribute nothing and are left out.  Reference values by explicit loops."""
+    (sx, x), (sw, w) = operands
+    nd = len(sx) - 2
+    if nd < 1 or len(sw) != len(sx) or sx[1] != sw[1]:
+        raise ValueError("shapes")
+    S, P, D = _tup(params.get("stride", 1), nd), _tup(params.get("padding", 0), nd), _tup(params.get("dilation", 1), nd)
+    X, W = sx[2:], sw[2:]
+    O = []
+    for xd, wd, s_, p_, d_ in zip(X, W, S, P, D):
+        ext = (wd - 1) * d_ + 1
+        if s_ < 1 or d_ < 1 or p_ < 0 or xd + 2 * p_ < ext or (xd + 2 * p_ - ext) % s_ or wd * d_ > xd + 2 * p_:
+            raise ValueError("no exact tiling (or the dilated-extent gap of the known C16 finding)")
+        O.append((xd + 2 * p_ - ext) // s_ + 1)
+    N, C, F = sx[0], sx[1], sw[0]
+    out_shape = (N, F) + tuple(O)
+    Ix, Iw, Io = idx_of(sx), idx_of(sw), idx_of(out_shape)
+    mx, mw, key = [], [], []
+    out = np.zeros(out_shape, dtype=np.int64)
+    for n in range(N):
+        for f in range(F):
+            for o in itertools.product(*[range(k) for k in O]):
+                for c in range(C):
+                    for k in itertools.product(*[range(k) for k in W]):
+                        pos = tuple(oi * s_ + ki * d_ - p_ for oi, ki, s_, d_, p_ in zip(o, k, S, D, P))
+                        if any(q < 0 or q >= xd for q, xd in zip(pos, X)):
+                            continue
+                        mx.append(int(Ix[(n, c) + pos]))
+                        mw.append(int(Iw[(f, c) + k]))
+                        key.append(int(Io[(n, f) + o]))
+                        out[(n, f) + o] += x[(n, c) + pos] * w[(f, c) + k]
+    return out, Cop(len(key), [(0, mx), (1, mw)], ("mul",), (int(out.size), key)), False
+
+
+def t_maxpool(fn, params, operands):
+    """max_pool(x, pool, stride): each output element IS the unique maximum of its window (windows with ties are refused) -> a gather"""
+    (s, a), = operands
+    pool = tuple(int(p) for p in params["pool"])
+    nd = len(pool)
+    S = _tup(params.get("stride", 1), nd)
+    lead, X = s[:len(s) - nd], s[len(s) - nd:]
+    if len(s) < nd:
+        raise ValueError("shape")
+    O = []
+    for xd, pd, s_ in zip(X, pool, S):
+        if pd < 1 or s_ < 1 or xd < pd or (xd - pd) % s_:
+            raise ValueError("no exact tiling")
+        O.append((xd - pd) // s_ + 1)
+    I = idx_of(s)
+    out = np.zeros(tuple(lead) + tuple(O), dtype=np.int64)
+    m = []
+    for l in itertools.product(*[range(k) for k in lead]):
+        for o in itertools.product(*[range(k) for k in O]):
+            sl = tuple(slice(oi * s_, oi * s_ + pd) for oi, s_, pd in zip(o, S, pool))
+            win, lab = a[l + sl], I[l + sl]
+            mxv = win.max()
+            if int((win == mxv).sum()) != 1:
+                raise ValueError("tie")
+            out[l + o] = mxv
+            m.append(int(lab[win == mxv][0]))
+    n = len(m)
+    return out, Cop(n, [(0, m)], ("lin", [ones(n)], zeros(n)), None), False
+
+
 TRANSLATORS = {}
+TRANSLATORS["conv_nd"] = t_conv
+TRANSLATORS["max_pool"] = t_maxpool
 for _f in ("add", "subtract", "multiply", "maximum", "minimum"):
     TRANSLATORS[_f] = t_binary
 for _f in ("negative", "positive", "square", "abs", "relu"):
